@@ -384,6 +384,20 @@ def abandoned_run_rule(f, P, rep, rid):
                         dom.append(fbi)
                 ok = bool(dom)
                 fn = short(b.path)
+                # the piece obtained last: allocated like the others, not (yet) part of the run when the run is given up
+                for pl_, inc_bi in _pieces(b, defs, n):
+                    pdefs = [d for d in defs.get(pl_, [])]
+                    obtained = any(b.dominates(d[1], zbi) for d in pdefs)
+                    if not obtained or b.dominates(inc_bi, zbi):
+                        continue
+                    pdom = [fbi for fbi, ft in frees if b.dominates(fbi, zbi) and _mentions_locals(b, defs, ft['args'][1:], {pl_}, stop={a, n})]
+                    rep.ob(rid, '%s: piece %s in hand when the run is given up at %s' % (fn, b.lname(pl_), b.where(zbi)), bool(pdom),
+                           'released at %s' % b.where(pdom[0]) if pdom else 'not released')
+                    if not pdom:
+                        rep.violation(rid, '%s:%s:piece' % (rid, fn), b.where(zbi),
+                                      '%s gives up its run at %s while it holds a further piece (%s) that was allocated but not added to the '
+                                      'run, and does not release that piece: its clusters keep refcount 1 with no reference (leak)' % (
+                                          fn, b.where(zbi), b.lname(pl_)))
                 rep.ob(rid, '%s: run (%s, %s) given up at %s' % (fn, b.lname(a), b.lname(n), b.where(zbi)), ok,
                        'release of the run at %s dominates the reset' % b.where(dom[0]) if ok else 'no release of the run dominates the reset')
                 if not ok:
@@ -394,7 +408,7 @@ def abandoned_run_rule(f, P, rep, rid):
     rep.floor('run restarts in piecewise allocators', n_sites, 1)
 
 
-def _mentions_locals(b, defs, args, want, depth=4):
+def _mentions_locals(b, defs, args, want, depth=4, stop=()):
     """do the argument operands derive (through copies, casts and arithmetic, a few steps) from one of the locals `want`"""
     seen = set()
     work = [a['pl']['l'] for a in args if a['k'] in ('copy', 'move')]
@@ -407,6 +421,8 @@ def _mentions_locals(b, defs, args, want, depth=4):
         seen.add(l)
         if l in want:
             return True
+        if l in stop:
+            continue
         for d in defs.get(l, []):
             if d[0] != 'st':
                 continue
@@ -475,3 +491,40 @@ def release_once_rule(f, P, rep, rid):
                                   'already hands the displaced allocation to free_clusters: the same host clusters are decremented twice - '
                                   'a cluster shared by two compressed guest clusters reaches refcount 0 while still referenced' % (
                                       me, b.where(fbi), short(it['fn'])))
+
+
+def _pieces(b, defs, n):
+    """(tuple-typed local, block of the increment) for every `n = n + piece.len` increment of the run count"""
+    out = set()
+    for d in defs.get(n, []):
+        if d[0] != 'st':
+            continue
+        rv = b.blocks[d[1]]['st'][d[2]]['rv']
+        if rv['k'] != 'use' or rv['ops'][0]['k'] not in ('copy', 'move'):
+            continue
+        src = rv['ops'][0]['pl']['l']
+        for d2 in defs.get(src, []):
+            if d2[0] != 'st':
+                continue
+            rv2 = b.blocks[d2[1]]['st'][d2[2]]['rv']
+            if rv2['k'] != 'bin' or not rv2.get('op', '').startswith('Add'):
+                continue
+            # backward from the added operand to a tuple-typed local
+            work = [o['pl'] for o in rv2['ops'] if o['k'] in ('copy', 'move')]
+            seen = set()
+            for _ in range(24):
+                if not work:
+                    break
+                pl = work.pop()
+                l = pl['l']
+                if l in seen or l == n:
+                    continue
+                seen.add(l)
+                if b.ty(l).get('k') == 'tuple' and l in b.names:
+                    out.add((l, d[1]))
+                    continue
+                for d3 in defs.get(l, []):
+                    if d3[0] == 'st':
+                        rv3 = b.blocks[d3[1]]['st'][d3[2]]['rv']
+                        work.extend(o['pl'] for o in rv3.get('ops', []) if o['k'] in ('copy', 'move'))
+    return sorted(out)
